@@ -396,6 +396,46 @@ Proof.
   apply buffer_upd_other. lia.
 Qed.
 
+(* the exported decoders of the frame parts: FHDR.UnmarshalBinary, MACPayload.UnmarshalBinary, DataPayload.UnmarshalBinary,
+   ProprietaryMACCommandPayload.UnmarshalBinary *)
+Theorem part_decoders_isolated : forall data h,
+  (forall h' x, h_fhdr_unmarshal data h = (h', Ok x) ->
+     forall b, b < length h -> forall l, view_fhdr (upd h' b l) x = view_fhdr h' x) /\
+  (forall h' m, h_mac_unmarshal data h = (h', Ok m) ->
+     forall b, b < length h -> forall l, view_mac (upd h' b l) m = view_mac h' m) /\
+  (forall h' s, h_data_unmarshal data h = (h', Ok s) ->
+     forall b, b < length h -> forall l, bytes_of (upd h' b l) s = bytes_of h' s) /\
+  (forall h' p, h_prop_unmarshal data h = (h', Ok p) ->
+     forall b, b < length h -> forall l, view_macpl (upd h' b l) p = view_macpl h' p) /\
+  old_unchanged h (fst (h_fhdr_unmarshal data h)) /\
+  old_unchanged h (fst (h_mac_unmarshal data h)) /\
+  old_unchanged h (fst (h_prop_unmarshal data h)).
+Proof.
+  intros data h.
+  assert (IT : forall n0 hh b l its, Forall (fresh n0) (items_slices its) -> b < n0 ->
+               map (view_item (upd hh b l)) its = map (view_item hh) its).
+  { intros n0 hh b l its F Hb. apply view_items_ext. intros s Hs. apply buffer_upd_other.
+    rewrite Forall_forall in F. specialize (F s Hs). unfold fresh in F. lia. }
+  split; [|split; [|split; [|split; [|split; [|split]]]]].
+  - intros h' x E b Hb l.
+    destruct (safe_run noperm _ _ h h' _ (safe_fhdr_unmarshal noperm (length h) data) E) as [_ Q].
+    specialize (Q x eq_refl). unfold view_fhdr. f_equal. eapply IT; eauto.
+  - intros h' m E b Hb l.
+    destruct (safe_run noperm _ _ h h' _ (safe_mac_unmarshal noperm (length h) data) E) as [_ Q].
+    specialize (Q m eq_refl). apply Forall_app in Q as [Q1 Q2].
+    unfold view_mac, view_fhdr. f_equal; [f_equal|]; eapply IT; eauto.
+  - intros h' s E b Hb l.
+    destruct (safe_run noperm _ _ h h' _ (safe_data_unmarshal noperm (length h) data) E) as [_ Q].
+    specialize (Q s eq_refl). apply bytes_of_ext, buffer_upd_other. unfold fresh in Q. lia.
+  - intros h' p E b Hb l.
+    destruct (safe_run noperm _ _ h h' _ (safe_prop_unmarshal noperm (length h) data) E) as [_ Q].
+    specialize (Q p eq_refl). destruct p as [s|v]; simpl; auto.
+    f_equal. apply bytes_of_ext, buffer_upd_other. unfold fresh in Q. lia.
+  - apply pres_noperm_old. apply (safe_fhdr_unmarshal noperm (length h) data h (le_n _)).
+  - apply pres_noperm_old. apply (safe_mac_unmarshal noperm (length h) data h (le_n _)).
+  - apply pres_noperm_old. apply (safe_prop_unmarshal noperm (length h) data h (le_n _)).
+Qed.
+
 (* C10_marshal_readonly / C10_encode_isolated *)
 Theorem marshal_readonly : forall g f h,
   old_unchanged h (fst (h_phy_marshal g f h)).
